@@ -42,7 +42,7 @@ int __wrap_clock_nanosleep(clockid_t c, int flags, const struct timespec *req, s
     (void)c; (void)flags;
     if (!counting) return __real_clock_nanosleep(c, flags, req, rem);
     if (hit("clock_nanosleep")) {          /* interrupted after a third of the time: code returned, errno untouched */
-        unsigned long slept = ns / 3, left = ns - slept;
+        unsigned long slept = ns / 3 + (ns > 2000000 ? 123457 : 0), left = ns - slept;     /* the remaining time is not a whole number of milliseconds */
         virt_ns += slept;
         if (rem) { rem->tv_sec = (time_t)(left / 1000000000ul); rem->tv_nsec = (long)(left % 1000000000ul); }
         return EINTR;
@@ -56,7 +56,7 @@ int __wrap_nanosleep(const struct timespec *req, struct timespec *rem)
 {
     unsigned long ns = (unsigned long)req->tv_sec * 1000000000ul + (unsigned long)req->tv_nsec;
     if (!counting) return __real_nanosleep(req, rem);
-    if (hit("nanosleep")) { unsigned long slept = ns / 3, left = ns - slept; virt_ns += slept; if (rem) { rem->tv_sec = (time_t)(left / 1000000000ul); rem->tv_nsec = (long)(left % 1000000000ul); } errno = EINTR; return -1; }
+    if (hit("nanosleep")) { unsigned long slept = ns / 3 + (ns > 2000000 ? 123457 : 0), left = ns - slept; virt_ns += slept; if (rem) { rem->tv_sec = (time_t)(left / 1000000000ul); rem->tv_nsec = (long)(left % 1000000000ul); } errno = EINTR; return -1; }
     virt_ns += ns;
     return 0;
 }
@@ -118,17 +118,34 @@ static void sc_sem_later(char *out)
     OUT("acquire-after-wait=%d", a); if (err_is_eintr(e)) OUT(" EINTR-ERROR");
     p_semaphore_take_ownership(later_sem); p_semaphore_free(later_sem);
 }
+extern pchar *p_ipc_get_platform_key(const pchar *name, pboolean posix);
+#include <sys/stat.h>
+/* inode of the segment object (which = 0) / of its lock semaphore (1) for user name n; 0 if the name does not exist */
+static unsigned long shm_obj_ino(const char *n, int which)
+{
+    char b[200], path[128]; pchar *k, *k2; struct stat st;
+    snprintf(b, sizeof b, "%s_p_shm_object", n); k = p_ipc_get_platform_key(b, TRUE);
+    if (which) { snprintf(b, sizeof b, "%s_p_sem_object", k); k2 = p_ipc_get_platform_key(b, TRUE); snprintf(path, sizeof path, "/dev/shm/sem.%s", k2 + 1); p_free(k2); }
+    else snprintf(path, sizeof path, "/dev/shm/%s", k + 1);
+    p_free(k);
+    return stat(path, &st) == 0 ? (unsigned long)st.st_ino : 0ul;
+}
 static void sc_shm(char *out)
 {
-    size_t o = 0; PError *e = NULL; PShm *m = p_shm_new(nm, 256, P_SHM_ACCESS_READWRITE, &e), *m2; pboolean l, u;
+    size_t o = 0; PError *e = NULL; PShm *m = p_shm_new(nm, 256, P_SHM_ACCESS_READWRITE, &e), *m2; pboolean l, u; unsigned long i0, i1;
     OUT("new=%d ", m != NULL); if (err_is_eintr(e)) OUT("EINTR-ERROR ");
     if (!m) return;
+    i0 = shm_obj_ino(nm, 0); i1 = shm_obj_ino(nm, 1);
     m2 = p_shm_new(nm, 256, P_SHM_ACCESS_READWRITE, &e);
     OUT("open-existing=%d size=%lu ", m2 != NULL, m2 ? (unsigned long)p_shm_get_size(m2) : 0ul);
+    /* opening an existing segment must attach to the same kernel objects (an opener that replaces the lock semaphore breaks the lock between the two handles) */
+    OUT("same-segment=%d same-lock=%d ", i0 && shm_obj_ino(nm, 0) == i0, i1 && shm_obj_ino(nm, 1) == i1);
     l = p_shm_lock(m, &e); ((char *)p_shm_get_address(m))[3] = 9; u = p_shm_unlock(m, &e);
     OUT("lock=%d unlock=%d byte=%d", l, u, m2 ? ((char *)p_shm_get_address(m2))[3] : -1); if (err_is_eintr(e)) OUT(" EINTR-ERROR");
     if (m2) p_shm_free(m2);
+    OUT(" names-after-opener-free=%d%d", shm_obj_ino(nm, 0) == i0, shm_obj_ino(nm, 1) == i1);      /* the handle that only opened the segment does not remove it */
     p_shm_take_ownership(m); p_shm_free(m);
+    OUT(" names-after-owner-free=%d%d", shm_obj_ino(nm, 0) != 0, shm_obj_ino(nm, 1) != 0);
 }
 static void sc_ipc_open(char *out)
 {
